@@ -111,6 +111,23 @@ def run(ctx):
     lms = hvs.primaries_to_lms(x)
     lms_back = unimg(hvs.lms_to_primaries(lms).float())
     C = np.array(cs, dtype=np.float64)
+    # the display model after its matrix was rebuilt through the public construct_matrix_lms (another observer's cone fundamentals; re-measured primaries):
+    # primaries -> LMS -> primaries is still the identity, and the forward direction uses the rebuilt matrix
+    try:
+        hv2 = CC.display_color_hvs(read_spectrum='tensor', primaries_spectrum=prim.clone())
+        before_m = hv2.lms_tensor.clone()
+        gg = torch.Generator().manual_seed(ctx.seed + 3)
+        l2, m2, s2 = [(r_ * (0.6 + 0.8 * torch.rand(r_.shape, generator=gg))) for r_ in (hv2.l_normalized, hv2.m_normalized, hv2.s_normalized)]
+        hv2.construct_matrix_lms(l2, m2, s2)
+        changed_m = float((hv2.lms_tensor - before_m).abs().max())
+        rt = unimg(hv2.lms_to_primaries(hv2.primaries_to_lms(x)).float())
+        ctx.case(('hvs_rebuilt', round(changed_m, 6)), True)
+        ctx.count('display_color_hvs/matrix rebuilt with other cone fundamentals')
+        if changed_m > 1e-3 and np.max(np.abs(rt - np.array(cs, dtype=np.float64))) > 2e-3:
+            ctx.violation('display_color_hvs after construct_matrix_lms(other cone fundamentals): primaries -> LMS -> primaries is off by %.3g (the matrix changed by %.3g)'
+                          % (float(np.max(np.abs(rt - np.array(cs, dtype=np.float64)))), changed_m), {'what': 'hvs_rebuilt'}, {'what': 'lms_roundtrip', 'rebuilt': True})
+    except AttributeError:
+        ctx.count('display_color_hvs/rebuild not available')
 
     def viol(what, i, got, want, tol):
         ctx.violation('%s for colour %s: got %s, expected %s (tolerance %g)' % (what, cs[i], np.round(got, 6).tolist(), np.round(want, 6).tolist(), tol),
